@@ -119,6 +119,23 @@ def check_string(s, names, mode, win, out, stream, converse=False):
                 out.violation(dict(case, problem='does not match itself'), size=len(s) * 10 + len(names),
                               bucket=('self', mode, win, converse))
                 return
+            if not converse and all(ord(c_) < 128 for c_ in s):
+                # the bytes twin: escape(bytes) compiled with the same flags matches the same bytes
+                bs = s.encode()
+                if mode == 'fn':
+                    bpat = F.escape(bs)
+                elif not win and len(s) % 2:
+                    bpat = G.escape(bs)
+                else:
+                    bpat = G.escape(bs, unix=not win)
+                out.evaluations += 1
+                if bpat != pat.encode():
+                    out.violation(dict(case, problem='escape(bytes) differs from escape(str)', bytes_pattern=bpat.decode('latin-1')),
+                                  size=len(s) * 10 + len(names), bucket=('bytes-escape', mode, win))
+                    return
+                if not (F.compile if mode == 'fn' else G.compile)(bpat, flags=fl).match(bs):
+                    out.violation(dict(case, problem='as bytes: does not match itself'), size=len(s) * 10 + len(names), bucket=('self-bytes', mode, win))
+                    return
             cands = N.neighbours(s, PROBES + [c.swapcase() for c in s if c.isalpha()][:2])
             for t in ('a', '.', '/', '\n', 'a/'):
                 cands.add(s + t)
